@@ -151,17 +151,17 @@ Proof.
 Qed.
 
 (* follow returns only objects that exist and are not reference records *)
-Lemma follow_ok fuel : forall s o s' o',
-  follow fuel s o = (s', Ok o') ->
+Lemma follow_ok fuel : forall s o lk s' o' lk',
+  follow fuel s o lk = (s', Ok (o', lk')) ->
   now s' = now s /\ exists ob, hget s' o' = Some ob /\ r_ref (o_rec ob) = None.
 Proof.
-  induction fuel as [|f IH]; intros s o s' o'; cbn [follow]; destruct (hget s o) as [ob|] eqn:Ho; try discriminate.
-  - destruct (r_ref (o_rec ob)) eqn:Hr; [discriminate|]. intro H. injection H as <- <-.
+  induction fuel as [|f IH]; intros s o lk s' o' lk'; cbn [follow]; destruct (hget s o) as [ob|] eqn:Ho; try discriminate.
+  - destruct (r_ref (o_rec ob)) eqn:Hr; [discriminate|]. intro H. injection H as <- <- <-.
     split; [reflexivity|]. exists ob. split; assumption.
   - destruct (r_ref (o_rec ob)) as [t|] eqn:Hr.
     + pose proof (cache_get_hdom s t) as [_ Hn]. destruct (cache_get s t) as [s1 [[o1|]|]]; try discriminate.
       cbn [fst] in Hn. intro H. apply IH in H. destruct H as [H1 H2]. split; [congruence | exact H2].
-    + intro H. injection H as <- <-. split; [reflexivity|]. exists ob. split; assumption.
+    + intro H. injection H as <- <- <-. split; [reflexivity|]. exists ob. split; assumption.
 Qed.
 
 (* ---------------------------------------------------------- C06_moves *)
@@ -216,14 +216,12 @@ Definition valid_part (c : cfg) (s : st) (q : request) (k : key) (o : nat) (r : 
   | Err e => (s, Err e, cks)
   | Panic e => (s, Panic e, cks)
   | Ok _ =>
-    let '(s, fr) := if isref then follow (S (N.to_nat (supply s))) s o else (s, Ok o) in
+    let '(s, fr) := if isref then follow (S (N.to_nat (supply s))) s o k else (s, Ok (o, k)) in
     match fr with
     | Err e => (s, Err e, cks)
     | Panic e => (s, Panic e, cks)
-    | Ok o' =>
-      let cks := if isref then
-                   match hget s o' with Some ob' => cks ++ [CkLive (o_id ob')] | None => cks end
-                 else cks in
+    | Ok (o', lk) =>
+      let cks := if isref then cks ++ [CkLive lk] else cks in
       let s := hupd s o' (fun r => set_ua (set_ip (set_access r (now s)) (q_addr q)) (q_ua q)) in
       (s, Ok (Some o'), cks)
     end
@@ -256,7 +254,7 @@ Proof.
   - (* a reference record: backstop test, then follow *)
     destruct (sat_add (c_idexpiry c) (c_grace c) <=? since (r_created r) (now s))%Z.
     + destruct (cache_delete s k) as [s1 ok]. destruct ok; discriminate.
-    + destruct (follow (S (N.to_nat (supply s))) s o) as [s1 [o1|e|e]] eqn:Hf; try discriminate.
+    + destruct (follow (S (N.to_nat (supply s))) s o k) as [s1 [[o1 lk1]|e|e]] eqn:Hf; try discriminate.
       apply follow_ok in Hf as (Hn & ob1 & Ho1 & _).
       intro H. injection H as <- <- _. split; [|rewrite now_hupd; exact Hn].
       apply (hupd_touched s1 q o1 ob1). exact Ho1.
